@@ -48,6 +48,10 @@ def lattice_cases(draw, tier):
             'screen': None, 'clear': draw(st.sampled_from([None, 24000])), 'stack': None, 'org': org, 'start': org}
     if case['clear'] is not None and org <= case['clear']:
         case['clear'] = None
+    if case['clear'] is None and draw(st.sampled_from([0, 1])):
+        # the classic load-over-the-stack layout: the data covers (some of) the loader's stack bytes
+        case['stack'] = min(65535, org + draw(st.integers(1, min(n, 6))))
+        case['start'] = min(65535, case['stack'] + 1)
     variants = []
     for fast, cmio in ((1, 0), (0, 0), (0, 1)):
         k = draw(st.integers(2, 4))
@@ -116,13 +120,76 @@ def lattice_oracle(case, rec=None):
         keys = list(loaded)
         for k in keys[1:]:
             a, b = loaded[keys[0]], loaded[k]
-            da = a[2][org - 16384:org - 16384 + n]
-            db = b[2][org - 16384:org - 16384 + n]
+            da = bytearray(a[2][org - 16384:org - 16384 + n])
+            db = bytearray(b[2][org - 16384:org - 16384 + n])
+            if case['clear'] is None:
+                # the 14 bytes below STACK are the ROM loader's working stack: a real-time load pushes return
+                # addresses there while the block arrives, a fast load does not (bin2tap documents them as lost)
+                stk = case['stack'] if case.get('stack') is not None else org
+                for x in range(max(org, stk - 14), min(org + n, stk)):
+                    da[x - org] = db[x - org] = 0
             if da != db or a[3] != b[3] or (case['clear'] is None and a[4] != b[4]):
                 raise Violation('lattice:across-fastload-cmio', 'loaded data/PC/SP differ between (fast-load, cmio)=%r and %r: PC %d/%d SP %d/%d' % (keys[0], k, a[3], b[3], a[4], b[4]), case)
         for key, r in loaded.items():
             if r[2][org - 16384:org - 16384 + n] != exp['data'] and case['clear'] is not None:
                 raise Violation('lattice:data', 'loaded bytes differ from the binary under (fast-load, cmio)=%r' % (key,), case)
+
+
+# ---------------------------------------------------------------------------- A2: ROM load over the stack
+@st.composite
+def overstack_cases(draw):
+    """A bin2tap tape of a small program that calls LD-BYTES (0x0556) for a further headerless block whose bytes cover
+    the routine's own return address (the auto-run trick of many commercial tapes): the block decides where LD-BYTES
+    returns to. The outcome must not depend on fast-load / simulator / accelerator settings."""
+    S = draw(st.sampled_from([0xC010, 0x9000, 0xFFF0, 0x8100]))
+    post = draw(st.integers(0, min(40, 65536 - S)))
+    body = draw(st.binary(min_size=post, max_size=post))
+    return {'kind': 'overstack', 'S': S, 'post': body.hex(), 'ret2': draw(st.sampled_from([0xB000, 0xB003, 0x7000])),
+            'pause': draw(st.sampled_from([1, 1, 0])), 'accelerator': draw(st.sampled_from(['auto', 'none', 'rom'])),
+            'dec_a': draw(st.integers(0, 3)), 'python_slow': draw(st.sampled_from([0, 0, 1]))}
+
+
+def overstack_oracle(case, rec=None):
+    from skoolkit.snapshot import Snapshot
+    S, FINAL = case['S'], 0xA000
+    dest = S - 4
+    block = bytes([FINAL & 255, FINAL >> 8, case['ret2'] & 255, case['ret2'] >> 8]) + bytes.fromhex(case['post'])
+    L = len(block)
+    prog = bytes([0x31, S & 255, S >> 8, 0xDD, 0x21, dest & 255, dest >> 8, 0x11, L & 255, L >> 8, 0x3E, 0xFF, 0x37,
+                  0xCD, 0x56, 0x05, 0x18, 0xFE])
+    with cli.Scratch('c13o-') as s:
+        binf = s.write('p.bin', prog)
+        tape = s.path('p.tap')
+        r = cli.run('bin2tap', ['-o', 32768, '-s', 32768, '-c', 32767, binf, tape])
+        if not r.ok:
+            raise Violation('bin2tap-exit', 'bin2tap failed: %r %s' % (r.exc, r.err[-200:]), case)
+        tb = bytes([0xFF]) + block
+        par = 0
+        for b in tb:
+            par ^= b
+        tb += bytes([par])
+        with open(tape, 'ab') as f:
+            f.write(bytes([len(tb) & 255, len(tb) >> 8]) + tb)
+        variants = [{'fast-load': 1, 'python': 0}, {'fast-load': 0, 'python': 0}, {'fast-load': 1, 'python': 1}, {'fast-load': 0, 'python': 0, 'cmio': 1}]
+        if case['python_slow']:
+            variants.append({'fast-load': 0, 'python': 1})
+        results = []
+        tcase = {'kind': '48', 'n': 1, 'start': FINAL}
+        for i, v in enumerate(variants):
+            load = dict(v, accelerator=case['accelerator'], pause=case['pause'])
+            load['accelerate-dec-a'] = case['dec_a']
+            out, reason, stdout = c12.run_tap2sna(s, tcase, tape, load, 'o%d.szx' % i)
+            sn = Snapshot.get(out)
+            ram = bytes(sn.ram(-1))
+            results.append((reason, sn.pc, sn.sp, ram[dest - 16384:dest - 16384 + L]))
+        for v, r in zip(variants, results):
+            if r != results[0] or r[0] != 'PC at start address' or r[3] != block:
+                a = results[0]
+                raise Violation('overstack:%s' % ('outcome' if r[:3] != a[:3] else 'data'),
+                                'block loaded over the LD-BYTES return address: %r gives (%s, PC=%d, SP=%d, data ok=%s), %r gives (%s, PC=%d, SP=%d, data ok=%s); expected PC=%d SP=%d' % (
+                                    variants[0], a[0], a[1], a[2], a[3] == block, v, r[0], r[1], r[2], r[3] == block, FINAL, S - 2), case)
+        if rec is not None:
+            rec.case(repr(sorted(case.items())), True, 'overstack', case)
 
 
 # ---------------------------------------------------------------------------- B
@@ -343,6 +410,9 @@ def plan(tier, seed):
     nl = 64 if tier == "quick" else 2400
     for i in range(16):
         shards.append({'kind': 'lattice', 'tier': tier, 'n': max(1, nl // 16), 'seed': shard_seed(seed, PROPERTY, 'l%d' % i)})
+    no = 32 if tier == "quick" else 800
+    for i in range(8):
+        shards.append({'kind': 'overstack', 'n': no // 8, 'seed': shard_seed(seed, PROPERTY, 'o%d' % i)})
     return shards
 
 
@@ -373,6 +443,8 @@ def run_shard(shard, rec):
         rec.exhaustive = True
     elif k == 'harness':
         hyp_run(rec, harness_cases(shard['names']), lambda c: harness_oracle(c, rec), shard['n'], shard['seed'])
+    elif k == 'overstack':
+        hyp_run(rec, overstack_cases(), lambda c: overstack_oracle(c, rec), shard['n'], shard['seed'], shrink_budget_s=30.0)
     else:
         hyp_run(rec, lattice_cases(shard['tier']), lambda c: lattice_oracle(c, rec), shard['n'], shard['seed'], shrink_budget_s=30.0)
 
@@ -385,6 +457,8 @@ def replay(case):
         harness_oracle(case)
     elif k == 'dec_a':
         dec_a_oracle(case['a'], case['loop'])
+    elif k == 'overstack':
+        overstack_oracle(case)
     else:
         lattice_oracle(case)
 
